@@ -1,15 +1,16 @@
 package main
 
 import (
-	"runtime"
 	"bytes"
 	"context"
 	"fmt"
 	"os"
 	"os/exec"
 	"path/filepath"
+	"runtime"
 	"strings"
 	"sync"
+	"sync/atomic"
 	"time"
 )
 
@@ -250,24 +251,18 @@ func (s *Solver) run(obls []*Obligation) {
 		go func(name string, all []*Obligation) {
 			defer wg.Done()
 			defer func() { <-sem }()
-			var stack [][]*Obligation
-			for i := len(all); i > 0; i -= 48 {
-				j := i - 48
-				if j < 0 {
-					j = 0
-				}
-				stack = append(stack, all[j:i])
-			}
-			failed := false
-			for len(stack) > 0 {
-				g := stack[len(stack)-1]
-				stack = stack[:len(stack)-1]
-				if failed {
+			// path instances of one obligation: chunks of 48 are tried as one grouped query first; a chunk the solvers
+			// do not settle in 2 s is split in halves, and the halves (down to single instances) are solved side by
+			// side - the number of solver processes is bounded by procSem, not here
+			var failed int32
+			var solveGroup func(g []*Obligation)
+			solveGroup = func(g []*Obligation) {
+				if atomic.LoadInt32(&failed) != 0 {
 					for _, o := range g {
 						o.Result = "not-run"
 						o.Unsupp = "not run: another path instance of this obligation already failed"
 					}
-					continue
+					return
 				}
 				s.mu.Lock()
 				ctr++
@@ -279,9 +274,9 @@ func (s *Solver) run(obls []*Obligation) {
 					s.renderMu.Unlock()
 					s.discharge(rp, int(id))
 					if g[0].Result != "unsat" {
-						failed = true
+						atomic.StoreInt32(&failed, 1)
 					}
-					continue
+					return
 				}
 				s.renderMu.Lock()
 				text := s.groupText(name, g)
@@ -297,16 +292,33 @@ func (s *Solver) run(obls []*Obligation) {
 						o.Result, o.Solver = "unsat", r.solver+"(grouped)"
 						o.Ms = r.ms / int64(len(g))
 					}
-					continue
+					return
 				}
+				var parts [][]*Obligation
 				if len(g) <= 6 {
-					for i := len(g) - 1; i >= 0; i-- {
-						stack = append(stack, g[i:i+1])
+					for i := range g {
+						parts = append(parts, g[i:i+1])
 					}
-					continue
+				} else {
+					h := len(g) / 2
+					parts = [][]*Obligation{g[:h], g[h:]}
 				}
-				h := len(g) / 2
-				stack = append(stack, g[h:], g[:h])
+				var pw sync.WaitGroup
+				for _, part := range parts {
+					pw.Add(1)
+					go func(part []*Obligation) {
+						defer pw.Done()
+						solveGroup(part)
+					}(part)
+				}
+				pw.Wait()
+			}
+			for i := 0; i < len(all); i += 48 {
+				j := i + 48
+				if j > len(all) {
+					j = len(all)
+				}
+				solveGroup(all[i:j])
 			}
 		}(n, byName[n])
 	}
